@@ -156,7 +156,7 @@ Lemma set_finalised_ok st h round setid sub t' pruned i0 :
   lookup (bs_last st) (bs_unfin st) = None -> ~ In (bs_last st) sub ->
   lookup (bs_last st) (bs_hdr st) = Some i0 ->
   exists unfin' tries' hdr' num',
-    set_finalised st h round setid =
+    set_finalised_late st h round setid =
       (mkState t' unfin' tries' hdr' num' (((round, setid), h) :: bs_finkeys st) (round, setid)
                (bs_genesis st) h round setid, Ok tt)
     /\ (forall y, lookup y unfin' = if inb y pruned || inb y sub then None else lookup y (bs_unfin st))
@@ -174,7 +174,7 @@ Lemma set_finalised_ok st h round setid sub t' pruned i0 :
                   /\ hi_root i0 <> r).
 Proof.
   intros Hhas Hne Hrange NDs Hh Hsub Hsid Hprune NDp Hlu Hls Hlh.
-  unfold set_finalised, set_finalised_with. rewrite Hhas. cbn [negb].
+  unfold set_finalised_late, set_finalised_late_with. rewrite Hhas. cbn [negb].
   unfold handle_finalised. destruct (N.eqb_spec h (bs_last st)) as [|_]; [contradiction|].
   rewrite Hrange. cbn [tl].
   destruct (hf_loop_spec h (bs_genesis st) sub (bs_unfin st) (bs_tries st) (bs_hdr st) [] NDs Hsub)
